@@ -63,9 +63,10 @@ fn main() {
         println!("{{\"outcome\":\"{}\",\"message\":\"{}\"}}", outcome, esc(&msg));
         return;
     }
-    if args.len() == 3 && args[1] == "--scss-file" {
+    if args.len() == 3 && (args[1] == "--scss-file" || args[1] == "--scss-file-compressed") {
         // compile a stylesheet from disk (loads of other files go through the real FsLoader)
-        let format = rsass::output::Format { style: rsass::output::Style::Expanded, precision: 10 };
+        let style = if args[1] == "--scss-file" { rsass::output::Style::Expanded } else { rsass::output::Style::Compressed };
+        let format = rsass::output::Format { style, precision: 10 };
         let path = std::path::PathBuf::from(&args[2]);
         panic::set_hook(Box::new(|_| {}));
         let res = panic::catch_unwind(move || {
